@@ -685,6 +685,7 @@ def run(rep):
     else:
         rep.floor("LOWERCASE", 6)
         rep.floor("T-PATTERN", 11)
+    rep.assumptions.append("the into_identifier evaluation covers 87 probe patterns per build: agreement with the pattern syntax is established on these probes only; T-PATTERN/LOWERCASE decide the shapes they recognise")
     rep.exhaustive = True
     rep.trusted.append("std str::{contains,starts_with,ends_with,==}, regex is_match (unanchored search), aho-corasick overlapping search reports every occurrence of every needle")
 
